@@ -58,6 +58,9 @@ abbrev SDecl := PreSpec.Decl Bytes
 structure St where
   b : Builder := {}
   wakes : Array Nat := #[]
+  fails : Array Nat := #[]
+  sfails : List (Bytes × Nat) := []
+  errs : Nat := 0
   /-- accepted declarations; `none` once a node outside the specification's domain was accepted -/
   spec : Option (List SDecl) := some []
   swakes : List (Bytes × Nat) := []
@@ -148,7 +151,7 @@ def namePool (body : List String) : List Bytes := Id.run do
 /-- one declaration (a `sim.node` call or one call made by a `ModuleBlock`): compare the
     implementation's answer with the specification and the model, advance both -/
 def declStep (st : St) (id : String) (i : Nat) (what : String) (path : Except ObjPath.Err ObjPath.Path)
-    (segs : Option (List Bytes)) (stages wake : Nat) (ans : String) : Except String St := do
+    (segs : Option (List Bytes)) (stages wake fail : Nat) (ans : String) : Except String St := do
   -- specification
   let mut specAns : Option String := none
   let mut spec' := st.spec
@@ -177,7 +180,7 @@ def declStep (st : St) (id : String) (i : Nat) (what : String) (path : Except Ob
     let key := match path with
       | .ok p => p.data
       | .error _ => []
-    st := { st with wakes := st.wakes.push wake, mods := st.mods + 1, midins := st.midins + (if mid then 1 else 0),
+    st := { st with fails := st.fails.push fail, sfails := (key, fail) :: st.sfails, wakes := st.wakes.push wake, mods := st.mods + 1, midins := st.midins + (if mid then 1 else 0),
                     swakes := (key, wake) :: st.swakes,
                     weird := st.weird + (if segs.isNone then 1 else 0) }
   else
@@ -187,7 +190,7 @@ def declStep (st : St) (id : String) (i : Nat) (what : String) (path : Except Ob
 /-- expected `run` log: `ModTree.runWith` (= `Runtime::run`) over the abstract event set of C01/C03;
     a scripted module schedules one self-message `wake*(stage+1)` ns ahead in every start stage and
     its message handler schedules nothing -/
-def expectedLog (wake : Mod → Nat) (look : Mod → String) (byNode : Nat → Option Mod)
+def expectedLog (wake : Mod → Nat) (fail : Mod → Nat) (look : Mod → String) (byNode : Nat → Option Mod)
     (calls : List (Mod × Nat)) (ends : List Mod) (drops : List Mod) : List String × Nat := Id.run do
   let acts : Mod → Nat → List Rt.Act := fun m stage =>
     if wake m > 0 then [⟨false, wake m * (stage + 1), m.id⟩] else []
@@ -208,6 +211,9 @@ def expectedLog (wake : Mod → Nat) (look : Mod → String) (byNode : Nat → O
   -- the returned `Sim` is dropped: module states go in tear-down order
   for m in drops do
     out := out.push s!"D:{pathTok m.path}"
+  -- the errors `run()` returns: those of every `at_sim_end` callback, merged in call order
+  for (m, k) in ModTree.endErrors fail ends do
+    out := out.push s!"X:{pathTok m.path}#{k}"
   return (out.toList, nmsg)
 
 def firstDiff (a b : List String) : String := Id.run do
@@ -243,8 +249,9 @@ def runCase (c : Case) : String := Id.run do
         continue
       let stages := (kvNat rest "s").getD 1
       let wake := (kvNat rest "w").getD 0
+      let fail := (kvNat rest "f").getD 0
       let pb := untok p
-      match declStep st id i lhs (.ok (ObjPath.fromStr pb)) (wfSegs pb) stages wake ans with
+      match declStep st id i lhs (.ok (ObjPath.fromStr pb)) (wfSegs pb) stages wake fail ans with
       | .ok st' => st := st'
       | .error msg => return msg
     | "block" :: p :: rest =>
@@ -270,7 +277,7 @@ def runCase (c : Case) : String := Id.run do
       if answers.length != calls.length then
         return s!"fail {id} op={i} kind=diverge line=[{lhs}] model={calls.length}-answers impl={ans}"
       for ((what, path, segs), a) in calls.zip answers do
-        match declStep st id i what path segs stages 0 a with
+        match declStep st id i what path segs stages 0 0 a with
         | .ok st' => st := st'
         | .error msg => return msg
     | ["nodes"] =>
@@ -293,12 +300,13 @@ def runCase (c : Case) : String := Id.run do
       let toks := words ans
       let res := toks.head?.getD ""
       let got := toks.drop 1
-      if res != "res=ok" then
-        return s!"fail {id} op={i} kind=reject line=[{lhs}] spec=res=ok impl={res}"
+      let resOf (ok : Bool) : String := if ok then "res=ok" else "res=err"
       -- specification: stage-major over the declared pre-order, lookups from the declared tree
       if let some D := st.spec then
         let toMod (d : SDecl) : Mod := ⟨D.idxOf d, ⟨render d.segs, 0, d.segs.length, false⟩, d.stages, none⟩
         let swakes := st.swakes
+        let sfails := st.sfails
+        let failOfS (m : Mod) : Nat := ((sfails.find? (fun e => e.1 == m.path.data)).map (·.2)).getD 0
         let wakeOf (m : Mod) : Nat := ((swakes.find? (fun e => e.1 == m.path.data)).map (·.2)).getD 0
         let segsOf (m : Mod) : List Bytes := (wfSegs m.path.data).getD []
         let nameOf (m : Mod) : String := strOf ((segsOf m).getLast?.getD [])
@@ -312,14 +320,19 @@ def runCase (c : Case) : String := Id.run do
           if ks.isEmpty then "-" else joinWith "," ks
         let calls := (PreSpec.startSpec D).map (fun c => (toMod c.1, c.2))
         let ends := (PreSpec.endSpec D).map toMod
-        let (exp, _) := expectedLog wakeOf
+        let (exp, _) := expectedLog wakeOf failOfS
           (fun m => s!"{m.path.len}:{nameOf m}:{parentOf m}:{kidsOf m}")
           (fun n => D[n]?.map toMod) calls ends ((PreSpec.preorder D).map toMod)
+        let sres := resOf (ModTree.endOk failOfS ends)
+        if sres != res then
+          return s!"fail {id} op={i} kind=reject line=[run] clause=run-result spec={sres} impl={res}"
         if exp != got then
           return s!"fail {id} op={i} kind=reject line=[run] clause=callback-log {firstDiff exp got}"
       -- model
       let b := st.b
       let wakes := st.wakes
+      let fails := st.fails
+      let failOf (m : Mod) : Nat := fails[m.id]?.getD 0
       let wakeOf (m : Mod) : Nat := wakes[m.id]?.getD 0
       let nameOf (m : Mod) : String :=
         match ObjPath.name m.path with
@@ -332,12 +345,16 @@ def runCase (c : Case) : String := Id.run do
       let kidsOf (m : Mod) : String :=
         let ks := pool.filterMap (fun n => (lookupChild b m n).map (fun c => s!"{strOf n}>{pathTok c.path}"))
         if ks.isEmpty then "-" else joinWith "," ks
-      let (exp, nmsg) := expectedLog wakeOf
+      let (exp, nmsg) := expectedLog wakeOf failOf
         (fun m => s!"{m.path.len}:{nameOf m}:{parentOf m}:{kidsOf m}")
         (byId b) (startCalls b.mods) (endCalls b.mods) ((teardown b).filterMap (byId b))
+      let mres := resOf (ModTree.endOk failOf (endCalls b.mods))
+      if mres != res then
+        return s!"fail {id} op={i} kind=diverge line=[run] clause=run-result model={mres} impl={res}"
       if exp != got then
         return s!"fail {id} op={i} kind=diverge line=[run] clause=callback-log {firstDiff exp got}"
-      st := { st with msgs := nmsg, starts := (startCalls b.mods).length }
+      st := { st with msgs := nmsg, starts := (startCalls b.mods).length,
+                      errs := (ModTree.endErrors failOf (endCalls b.mods)).length }
     | ["path", s] =>
       st := { st with pathops := st.pathops + 1 }
       let sb := untok s
@@ -361,7 +378,7 @@ def runCase (c : Case) : String := Id.run do
   let maxSt := maxStage st.b.mods
   let nt := st.midins > 0 && maxSt ≥ 2 && st.mods ≥ 4 && ran && st.spec.isSome
   let maxDepth := st.b.mods.foldl (fun a m => max a m.path.len) 0
-  return s!"ok {id} nt={if nt then 1 else 0} deep={if maxDepth ≥ 6 then 1 else 0} ops={i} mods={st.mods} midins={st.midins} rejects={st.rejects} starts={st.starts} msgs={st.msgs} pathops={st.pathops} weird={st.weird} indomain={if st.spec.isSome then 1 else 0}"
+  return s!"ok {id} nt={if nt then 1 else 0} deep={if maxDepth ≥ 6 then 1 else 0} ops={i} mods={st.mods} midins={st.midins} rejects={st.rejects} starts={st.starts} msgs={st.msgs} errs={st.errs} pathops={st.pathops} weird={st.weird} indomain={if st.spec.isSome then 1 else 0}"
 
 def main (stdin : IO.FS.Stream) : IO Unit := do
   let cases ← readCases stdin
